@@ -1872,8 +1872,13 @@ def is_abstract(f: FuncInfo):
   if isinstance(f.node, ast.Lambda):
     return False
   body = [st for st in f.body if not (isinstance(st, ast.Expr) and isinstance(st.value, ast.Constant))]
-  if len(body) == 1 and isinstance(body[0], ast.Raise):
-    return 'NotImplementedError' in unparse(body[0])
+  if body and isinstance(body[-1], ast.Raise) and 'NotImplementedError' in unparse(body[-1]) \
+      and not any(isinstance(n, (ast.Return, ast.Yield)) for st in body for n in ast.walk(st)):
+    return True   # whatever precedes it, the member can only raise NotImplementedError
+  has_value_return = any(isinstance(n, ast.Return) and n.value is not None for st in f.body for n in ast.walk(st))
+  if not has_value_return and (any(isinstance(st, ast.Expr) and isinstance(st.value, ast.Constant) and st.value.value is Ellipsis for st in f.body)
+                               or (f.cls is not None and any('Protocol' in unparse(b) for b in f.cls.bases_ast))):
+    return True   # `...` stub or Protocol member that returns nothing: an interface declaration
   if not body or (len(body) == 1 and isinstance(body[0], ast.Pass)):
     # `...` / docstring-only bodies of Protocol members
     return any(isinstance(st, ast.Expr) and isinstance(st.value, ast.Constant) and st.value.value is Ellipsis for st in f.body) or f.cls is not None and any(
